@@ -73,12 +73,23 @@ func (e *Engine) dumpQuery(script, status string) {
 	os.WriteFile(filepath.Join(e.dumpQueries, fmt.Sprintf("q%05d_%s.smt2", e.dumpSeq, status)), []byte(script+"(check-sat)\n"), 0o644)
 }
 
+// harness files that every harness needs: if one of these does not compile nothing can run
+func coreHarnessFile(name string) bool {
+	return name == "api_decl.go" || name == "util.go" || strings.HasPrefix(name, "models_")
+}
+
+// droppedHarnessFiles: harness files left out of this run because they do not compile against the
+// tree under test (an internal identifier they use was renamed or removed there) although the
+// harnesses of the requested property do; the native replay leaves them out too.
+var droppedHarnessFiles = map[string]bool{}
+
 // loadEngine loads repoDir with every *.go file of harnessDir overlaid as
-// repoDir/zz_verif_<name> (build tag "verif").
-func loadEngine(repoDir, harnessDir string) (*Engine, error) {
+// repoDir/zz_verif_<name> (build tag "verif"). If some harness files do not type-check against the
+// tree, they are dropped (and whatever depends on them, iteratively) as long as none of them is a
+// core file or defines a harness of property prop ("" = every file is needed).
+func loadEngine(repoDir, harnessDir, prop string) (*Engine, error) {
 	t0 := time.Now()
-	overlay := map[string][]byte{}
-	var ofiles []string
+	srcs := map[string][]byte{}
 	ents, err := os.ReadDir(harnessDir)
 	if err != nil {
 		return nil, err
@@ -91,32 +102,69 @@ func loadEngine(repoDir, harnessDir string) (*Engine, error) {
 		if err != nil {
 			return nil, err
 		}
-		virt := filepath.Join(repoDir, "zz_verif_"+en.Name())
-		overlay[virt] = src
-		ofiles = append(ofiles, en.Name())
+		srcs[en.Name()] = src
 	}
-	cfg := &packages.Config{
-		Mode:       packages.LoadAllSyntax,
-		Dir:        repoDir,
-		Overlay:    overlay,
-		BuildFlags: []string{"-tags=verif"},
-		Env:        append(os.Environ(), "GOFLAGS=-mod=mod", "GOPROXY=off", "GOSUMDB=off", "GOTOOLCHAIN=local"),
-	}
-	pkgs, err := packages.Load(cfg, ".")
-	if err != nil {
-		return nil, err
-	}
-	if len(pkgs) != 1 {
-		return nil, fmt.Errorf("expected one package, got %d", len(pkgs))
-	}
-	var errs []string
-	packages.Visit(pkgs, nil, func(p *packages.Package) {
-		for _, e := range p.Errors {
-			errs = append(errs, e.Error())
+	needed := func(name string) bool {
+		if prop == "" || coreHarnessFile(name) {
+			return true
 		}
-	})
-	if len(errs) > 0 {
-		return nil, fmt.Errorf("harness does not compile against the current tree:\n%s", strings.Join(errs, "\n"))
+		src := string(srcs[name])
+		return strings.Contains(src, "func Verif_"+prop+"_") || strings.Contains(src, "func VerifT_"+prop+"_")
+	}
+	var pkgs []*packages.Package
+	var ofiles []string
+	for round := 0; ; round++ {
+		overlay := map[string][]byte{}
+		ofiles = nil
+		for name, src := range srcs {
+			if droppedHarnessFiles[name] {
+				continue
+			}
+			overlay[filepath.Join(repoDir, "zz_verif_"+name)] = src
+			ofiles = append(ofiles, name)
+		}
+		sort.Strings(ofiles)
+		cfg := &packages.Config{
+			Mode:       packages.LoadAllSyntax,
+			Dir:        repoDir,
+			Overlay:    overlay,
+			BuildFlags: []string{"-tags=verif"},
+			Env:        append(os.Environ(), "GOFLAGS=-mod=mod", "GOPROXY=off", "GOSUMDB=off", "GOTOOLCHAIN=local"),
+		}
+		pkgs, err = packages.Load(cfg, ".")
+		if err != nil {
+			return nil, err
+		}
+		if len(pkgs) != 1 {
+			return nil, fmt.Errorf("expected one package, got %d", len(pkgs))
+		}
+		var errs []string
+		bad := map[string]bool{}
+		fatal := false
+		packages.Visit(pkgs, nil, func(p *packages.Package) {
+			for _, e := range p.Errors {
+				errs = append(errs, e.Error())
+				f := e.Pos
+				if k := strings.Index(f, ":"); k >= 0 {
+					f = f[:k]
+				}
+				base := filepath.Base(f)
+				if filepath.Dir(f) == filepath.Clean(repoDir) && strings.HasPrefix(base, "zz_verif_") && !needed(strings.TrimPrefix(base, "zz_verif_")) {
+					bad[strings.TrimPrefix(base, "zz_verif_")] = true
+				} else {
+					fatal = true
+				}
+			}
+		})
+		if len(errs) == 0 {
+			break
+		}
+		if fatal || len(bad) == 0 || round > 8 {
+			return nil, fmt.Errorf("harness does not compile against the current tree:\n%s", strings.Join(errs, "\n"))
+		}
+		for f := range bad {
+			droppedHarnessFiles[f] = true
+		}
 	}
 	prog, spkgs := ssautil.AllPackages(pkgs, ssa.InstantiateGenerics)
 	prog.Build()
